@@ -130,3 +130,4 @@ async def test_restart_after_reconnect_task_started_while_draining() -> None:
 
 
 if __name__ == "__main__":
+    raise SystemExit(pytest.main(["-q", "-p", "no:cacheprovider", __file__]))
